@@ -32,7 +32,12 @@ func init() {
 				}
 				total += l
 			}
-			ls := make(orb.LineString, len(vs))
+			// the line is the head of a longer buffer (spare capacity holding foreign points) in two calls out of three
+			buf := make(orb.LineString, len(vs)+((len(vs)+n+dn)%3+3)%3*8)
+			for i := range buf {
+				buf[i] = orb.Point{9999, -9999}
+			}
+			ls := buf[:len(vs)]
 			for i, v := range vs {
 				ls[i] = orb.Point{float64(v[0]), float64(v[1])}
 			}
